@@ -510,6 +510,7 @@ func wfExtents(T []uint64) bool {
 //@   ensures stuck: implies(i.off <= old(i.off)+old(i.addNext), i.t == TagEnd && result == TypeNone)
 //@   ensures atend: implies(old(i.off)+old(i.addNext) >= len(i.tape.Tape), result == TypeNone)
 //@   ensures endpos: implies(i.t == TagEnd, i.off >= len(i.tape.Tape) || i.off > old(i.off)+old(i.addNext))
+//@   ensures nonequeue: implies(result == TypeNone, i.addNext == 0 && !isNumOrString(i.t) && !isContainerTag(i.t) && i.t != TagRoot)
 //@   ensures inv: iterOK(i)
 //@   invariant 0 0 <= i.off && i.off <= 1<<57 && old(i.off)+old(i.addNext) <= i.off
 //@   decreases 0 len(i.tape.Tape) - i.off
@@ -614,10 +615,19 @@ func wfExtents(T []uint64) bool {
 //@   nonnil dst
 //@   safe
 
+// sameLevel: the search iterator either queues the WHOLE entry it stands on (so the next step stays at the same
+// nesting level) or has entered a container on purpose, its window narrowed to exactly that container (C12: look-ups
+// see the members plain traversal sees, never the members of a nested container that merely follows a skipped key)
+func sameLevel(i *Iter) bool {
+	return i.addNext == stepAddNext(i.t, i.cur, i.off) ||
+		(i.addNext == 0 && len(i.tape.Tape) == i.off+stepAddNext(i.t, i.cur, i.off))
+}
+
 //@ func (*Object).FindKey variant anytape
 //@   props C05 C19
 //@   requires 0 <= o.off && o.off <= 1<<57 && o.tape.Strings != nil
 //@   invariant 0 iterOK(&tmp) && tmp.tape.Strings != nil
+//@   invariant 0 [C12] level: tmp.addNext == stepAddNext(tmp.t, tmp.cur, tmp.off)
 //@   decreases 0 len(tmp.tape.Tape) - tmp.off - tmp.addNext
 //@   safe
 
@@ -632,6 +642,7 @@ func wfExtents(T []uint64) bool {
 //@   props C05 C19
 //@   requires 0 <= o.off && o.off <= 1<<57 && o.tape.Strings != nil
 //@   invariant 0 iterOK(&tmp) && tmp.tape.Strings != nil
+//@   invariant 0 [C12] level: sameLevel(&tmp)
 //@   decreases 0 2*(len(tmp.tape.Tape) - tmp.off - tmp.addNext) + ite(tmp.t == TagEnd, 0, 1)
 //@   safe
 
